@@ -67,7 +67,7 @@ fn ffz() -> temporal_rs::primitive::FiniteF64 { temporal_rs::primitive::FiniteF6
 /// C03: ZonedDateTime operations on a synthetic zone with extreme receivers and arguments; only the outcome kind is projected.
 fn zoned_extreme(op: &str, a: &Value) -> Value {
     use crate::synth_tz::*;
-    let z = Zone::from_json(&a["zone"]);
+    let z = if op == "ZonedX.absurd" { Zone { init: 0, trans: vec![] } } else { Zone::from_json(&a["zone"]) };
     let p = SynthProvider::with_zone(z.clone());
     let tz = time_zone_for(&z, false);
     // receiver: absolute epoch ns (big) or seconds relative to the synthetic base day
